@@ -204,6 +204,10 @@ class RegionTable:
         self.entries = c_vhdx.region_table_entry[self.header.entry_count](fh)
         self.lookup = {UUID(bytes_le=e.guid): e for e in self.entries}
 
+        for guid, entry in self.lookup.items():
+            if entry.required and guid not in (BAT_REGION_GUID, METADATA_REGION_GUID):
+                raise InvalidVirtualDisk(f"Unsupported required region: {guid}")
+
     def get(self, guid: UUID, required: bool = True) -> c_vhdx.region_table_entry | None:
         data = self.lookup.get(guid)
         if not data and required:
